@@ -61,6 +61,9 @@ class QWorld(SWorld):
                 src = Opaque("source", f"source@{len(self.log)}", term=seq[pos])
                 o.attrs["pos"] = IntSV(pos + 1)
                 self.log.append(("next", o, "item", src))
+                if o.attrs["of"].attrs.get("factories") and ctx.choose(2, "the entry is a source / a factory taking the previous error") == 1:
+                    # on_error_resume_next takes, in place of a source, a function from the previous error to the source to go on with
+                    return Opaque("callback", f"factory@{len(self.log)}", produces=src)
                 return src
             if k == 1:
                 ctx.assume(pos == z3.Length(seq))
@@ -70,6 +73,13 @@ class QWorld(SWorld):
             ctx.assume(z3.Not(z3.Function("exc_isinstance_StopIteration", smt.Val, z3.BoolSort())(e.t)))
             self.log.append(("next", o, "raise", e))
             raise PyExc(e)
+        if o.kind == "callback" and "produces" in o.attrs:
+            if ctx.choose(2, "the source factory returns / raises") == 1:
+                e = SV(ctx.fresh("factory_exc", "val").t, "val", tag="exc")
+                self.log.append(("factory", o, list(args), ("raise", e)))
+                raise PyExc(e)
+            self.log.append(("factory", o, list(args), ("return", o.attrs["produces"])))
+            return o.attrs["produces"]
         if o.kind == "source" and method == "subscribe":
             self.n += 1
             d = Opaque("disposable", f"sub:{o.name}#{self.n}")
@@ -108,7 +118,7 @@ class SeqHarness:
         it = self.setup(ctx)
         w = self.w
         uid = f"{rel}::{fn}"
-        xs = Opaque("iterable", "sources", seq=ctx.fresh("sources", "seq").t, sources=True, no_raise=(which == "resume"))
+        xs = Opaque("iterable", "sources", seq=ctx.fresh("sources", "seq").t, sources=True, no_raise=(which == "resume"), factories=(which == "resume"))
         f = it.module_get(mod, fn)
         obs = it.call(f, [xs] if which != "resume" else [xs], {}) if which != "resume" else None
         if which == "resume":
@@ -182,6 +192,17 @@ class SeqHarness:
         if not nx:
             return
         kind = nx[0][2]
+        fac = self.ev("factory")
+        if fac and fac[0][3][0] == "raise":
+            # the entry was a factory and it failed: the sequence fails with that exception - nothing is subscribed, nothing scheduled (the operator
+            # "continues on" terminations of SOURCES; a factory that cannot say which source comes next leaves nothing to continue with)
+            self.rec(ctx, uid + "/tick/factory-raises/the-factory-was-called-once-with-the-previous-error", len(fac) == 1 and len(fac[0][2]) == 1 and fac[0][2][0] is None)
+            self.rec(ctx, uid + "/tick/factory-raises/ends-with-exactly-that-error-and-nothing-else",
+                     len(downs) == 1 and downs[0][1] == "on_error" and same(downs[0][2][0], fac[0][3][1]) is True and not subs and not sch,
+                     detail=f"downstream: {[d[1] for d in downs]}, subscribed: {len(subs)}, scheduled: {len(sch)}")
+            return
+        if fac:
+            self.rec(ctx, uid + "/tick/factory/called-once-with-the-previous-error", len(fac) == 1 and len(fac[0][2]) == 1 and fac[0][2][0] is None)
         if kind == "item":
             src = nx[0][3]
             ok = len(subs) == 1 and subs[0][1] is src
